@@ -291,8 +291,6 @@ def judge(before: M.Model, new_files: T.Dict[str, str], cmd: dict, via: str, res
                 tf = os.path.normpath(os.path.join(cmd.get('subdir', ''), 'meson.build'))
                 if before.files.get(tf, '\n')[-1:] != '\n':
                     e.append('add-target-after-unterminated-last-line')
-            if inside_exist and rec is not None and rec.subdir and typ == 'target':
-                e.append('subdir-target-existing-path-rebased')
             if typ == 'target' and op in ('src_rm', 'extra_files_rm') and len(cmd.get('sources', [])) > 1 \
                     and M.nested_literal_containers(allowed, cmd['sources']):
                 e.append('overlapping-edits-of-nested-containers')
@@ -459,11 +457,22 @@ def judge(before: M.Model, new_files: T.Dict[str, str], cmd: dict, via: str, res
             for x in want:            # a file listed twice: removing one occurrence is as good a reading as removing all
                 if x in alt_l:
                     alt_l.remove(x)
+        # known finding subdir-target-existing-path-rebased, simulated exactly: a path that exists relative to the cwd
+        # is first made relative to the target's subdir and then read as relative to the source root
+        direct = None
+        if inside_exist and rec.subdir:
+            bw = {json.dumps(os.path.normpath(os.path.relpath(os.path.normpath(x), rec.subdir))) for x in cmd.get('sources', [])}
+            if op in ('src_add', 'extra_files_add'):
+                bug_l = sorted(lb + [x for x in bw if x not in sb])
+            else:
+                bug_l = [x for x in lb if x not in bw]
+            if la == bug_l and bug_l != exp_l:
+                direct = 'subdir-target-existing-path-rebased'
         if la != exp_l and not (op in ('src_rm', 'extra_files_rm') and la == alt_l):
             if op in ('src_rm', 'extra_files_rm') and refusal and sa - exp <= want and exp <= sa and len(la) <= len(lb):
                 st.outcome = 'refused:documented'
             else:
-                st.failed('value', f'{what}-not-as-requested', witness({'before': lb, 'after': la, 'expected': exp_l}), expl())
+                st.failed('value', f'{what}-not-as-requested', witness({'before': lb, 'after': la, 'expected': exp_l}), expl(), direct)
                 return st
         law = cmd.get('law')
         if law:
@@ -960,6 +969,21 @@ def probes() -> T.List[T.Tuple[str, T.Dict[str, str], T.List[dict], str, bool]]:
               [{'type': 'kwargs', 'function': 'project', 'id': '/', 'operation': 'remove', 'kwargs': {'default_options': 'werror=false'}},
                {'type': 'kwargs', 'function': 'project', 'id': '/', 'operation': 'add', 'kwargs': {'default_options': 'layout=flat'}},
                {'type': 'kwargs', 'function': 'project', 'id': '/', 'operation': 'remove', 'kwargs': {'default_options': 'debug'}}], 'json', False))
+    one = base + "executable('prog', files('a.c'), ['b.c'], ['c.c', 'd.c'], extra_files : files('x.h') + ['y.h'], install : true)\nz = 1\n"
+
+    def tcmd(opn: str, *files: str) -> dict:
+        return {'type': 'target', 'target': 'prog', 'operation': opn, 'sources': list(files)}
+    P.append(('one-line-lists-rm-textual-order', {'meson.build': one}, [tcmd('src_rm', 'a.c', 'b.c')], 'cli', False))
+    P.append(('one-line-lists-rm-reverse-order', {'meson.build': one}, [tcmd('src_rm', 'd.c', 'a.c')], 'cli', False))
+    P.append(('one-line-lists-rm-three', {'meson.build': one}, [tcmd('src_rm', 'a.c', 'b.c', 'c.c'), tcmd('src_add', 'e.c')], 'json', False))
+    P.append(('one-line-lists-rm-extra', {'meson.build': one}, [tcmd('extra_files_rm', 'x.h', 'y.h')], 'json', False))
+    P.append(('one-line-lists-rm-extra-rev', {'meson.build': one}, [tcmd('extra_files_rm', 'y.h', 'x.h')], 'cli', False))
+    xdir = {'meson.build': "project('p')\napp_srcs = ['main.c', 'util.c']\napp_files = files('top.c')\napp_hdrs = ['app.h']\nsubdir('app')\n",
+            'app/meson.build': "executable('app', app_srcs, app_files, extra_files : app_hdrs)\n"}
+    P.append(('var-from-parent-dir-add', xdir, [tcmd('src_add', 'app/new.c'), tcmd('info')], 'cli', False))
+    P.append(('var-from-parent-dir-rm', xdir, [tcmd('src_rm', 'app/main.c'), tcmd('src_add', 'app/main.c'), tcmd('info')], 'json', False))
+    P.append(('var-from-parent-dir-extra', xdir, [tcmd('extra_files_add', 'app/new.h'), tcmd('extra_files_rm', 'app/app.h')], 'cli', False))
+    P.append(('var-from-parent-dir-files', xdir, [tcmd('src_rm', 'top.c'), tcmd('info')], 'cli', False))
     # calibration on the shape of the repository's own fixtures
     fx = ("project('rewritetest')\nsrc1 = ['main.cpp', 'fileA.cpp']\nsrc2 = files(['fileB.cpp', 'fileC.cpp'])\n"
           "exe0 = executable('trivialprog0', src1 + src2)\nexe1 = executable('trivialprog1', src1)\n"
